@@ -106,11 +106,26 @@ def construct(mdl: dict) -> Mesh:
         return objs[i]
     for i in range(len(spec)):
         make(i)
-    anim = {time: [BoneFrame(objs[bi], Vec(*pos), Angle(*rot)) for bi, pos, rot in rows] for time, rows in mdl['frames']}
-    tris = [Triangle(mat, *[Vertex(Vec(*pos), Vec(*norm), u, v, [(objs[bi], w) for bi, w in links])
+    mesh_bones = list(objs)
+    # a mesh assembled from parts of several files (reference skeleton + animation + geometry): the poses / vertex links then
+    # refer to Bone objects that are equal to, but not the same objects as, the ones in Mesh.bones
+    how = mdl.get('bone_objects', 'shared')
+    anim_bones = link_bones = mesh_bones
+    if how in ('anim_copies', 'all_copies'):
+        objs = [None] * len(spec)
+        for i in range(len(spec)):
+            make(i)
+        anim_bones = list(objs)
+    if how in ('link_copies', 'all_copies'):
+        objs = [None] * len(spec)
+        for i in range(len(spec)):
+            make(i)
+        link_bones = list(objs)
+    anim = {time: [BoneFrame(anim_bones[bi], Vec(*pos), Angle(*rot)) for bi, pos, rot in rows] for time, rows in mdl['frames']}
+    tris = [Triangle(mat, *[Vertex(Vec(*pos), Vec(*norm), u, v, [(link_bones[bi], w) for bi, w in links])
                             for pos, norm, u, v, links in verts])
             for mat, verts in mdl['tris']]
-    return Mesh({b.name: b for b in objs}, anim, tris)
+    return Mesh({b.name: b for b in mesh_bones}, anim, tris)
 
 
 def expected(mdl: dict) -> dict:
@@ -220,6 +235,7 @@ FEATURES: dict = {
         ('reverse_chain4', [['d', 1], ['c', 2], ['b', 3], ['a', None]]),
         ('case_variants', [['Base', None], ['base', 0], ['BASE', 1], ['arm', 0], ['Arm', 3]]),     # distinct bones whose names differ only in case
     ],
+    'bone_objects': [('shared', 'shared'), ('copies', 'anim_copies'), ('copies', 'link_copies'), ('copies', 'all_copies')],
     'renamed_bone': [('first', 0), ('second', 1)],
     'bone_name': [('plain', 'static_prop'), ('dotted', 'ValveBiped.Bip01_R_Hand'), ('space', 'with space'),
                   ('empty', ''), ('upper', 'UPPER'), ('long', 'x' * 120), ('apostrophe', "it's"), ('tab', 'tab\there'),
